@@ -135,8 +135,13 @@ def run_cases_local(mod, cases, indices, out, tier='quick'):
             keys.add(h)
             if res.get('nontrivial', True) and not res.get('inconclusive'):
                 nontrivial_keys.add(h)
-        if len(samples) < 2 and res.get('sample') is not None:
-            samples.append(res['sample'])
+        if res.get('sample') is not None and not res.get('inconclusive'):
+            # keep the two richest (but still readable) cases seen by this worker
+            size = len(json.dumps(res['sample'], default=repr))
+            if size <= 3000:
+                samples.append((size, n, res['sample']))
+                samples.sort(key=lambda t: -t[0])
+                del samples[2:]
         for v in res.get('viol', ()):
             cnt = viol_seen.get(v['sig'], 0)
             viol_seen[v['sig']] = cnt + 1
@@ -146,7 +151,7 @@ def run_cases_local(mod, cases, indices, out, tier='quick'):
     if reach.counts:
         obs['reach'] = dict(reach.counts)
     out.write(json.dumps({'t': 'summary', 'n': n, 'obs': obs, 'keys': sorted(keys), 'nontrivial': sorted(nontrivial_keys),
-                          'inconclusive': inconc, 'samples': samples, 'viol_counts': viol_seen,
+                          'inconclusive': inconc, 'samples': [t[2] for t in samples], 'viol_counts': viol_seen,
                           'wall': time.time() - t0}, default=repr) + '\n')
     out.flush()
 
@@ -327,7 +332,7 @@ def check(mod, prop_id, tier, seed, nworkers, write_evidence=True):
         'distinct_nontrivial': len(total['nontrivial']),
         'distinct_cases': len(total['keys']),
         'rule': getattr(mod, 'RULE', ''),
-        'samples': total['samples'][:3] or [cases[0] if cases else None],
+        'samples': sorted(total['samples'], key=lambda x: -len(json.dumps(x, default=repr)))[:3] or [cases[0] if cases else None],
         'observed': total['obs'],
         'inconclusive_cases': total['inconclusive'],
         'violation_counts_by_signature': total['viol_counts'],
